@@ -159,8 +159,9 @@ type Op struct {
 	Kind string    `json:"op"`
 	K    int       `json:"k,omitempty"`
 	Ks   []int     `json:"ks,omitempty"`
-	V    int       `json:"v,omitempty"` // value (or base id of the values a loader produces)
-	D    int64     `json:"d,omitempty"` // duration / clock advance / maximum
+	V    int       `json:"v,omitempty"`  // value (or base id of the values a loader produces)
+	D    int64     `json:"d,omitempty"`  // duration / clock advance / maximum
+	D2   int64     `json:"d2,omitempty"` // iterators: the caller's loop body advances the clock by D2 after the first element
 	Comp string    `json:"comp,omitempty"`
 	Load *LoadPlan `json:"load,omitempty"`
 }
@@ -175,6 +176,9 @@ func (o Op) String() string {
 	case "all", "keys", "values", "hottest", "coldest":
 		if o.D > 0 {
 			s += fmt.Sprintf(" break-after=%d", o.D)
+		}
+		if o.D2 > 0 {
+			s += fmt.Sprintf(" advance-after-first=%d", o.D2)
 		}
 	case "cleanup", "invalidateall", "getmax", "wsize", "esize", "stats", "runexec", "saveload":
 	default:
@@ -766,6 +770,7 @@ func (r *Runner) Exec(op *Op) (res Result) {
 	case "all":
 		for k, v := range c.All() {
 			res.Entries = append(res.Entries, EntryView{K: k, V: v})
+			r.midIter(op, &res)
 			if op.D > 0 && int64(len(res.Entries)) >= op.D {
 				break
 			}
@@ -773,6 +778,7 @@ func (r *Runner) Exec(op *Op) (res Result) {
 	case "keys":
 		for k := range c.Keys() {
 			res.Entries = append(res.Entries, EntryView{K: k})
+			r.midIter(op, &res)
 			if op.D > 0 && int64(len(res.Entries)) >= op.D {
 				break
 			}
@@ -780,6 +786,7 @@ func (r *Runner) Exec(op *Op) (res Result) {
 	case "values":
 		for v := range c.Values() {
 			res.Entries = append(res.Entries, EntryView{V: v})
+			r.midIter(op, &res)
 			if op.D > 0 && int64(len(res.Entries)) >= op.D {
 				break
 			}
@@ -787,6 +794,7 @@ func (r *Runner) Exec(op *Op) (res Result) {
 	case "hottest":
 		for e := range c.Hottest() {
 			res.Entries = append(res.Entries, *view(e))
+			r.midIter(op, &res)
 			if op.D > 0 && int64(len(res.Entries)) >= op.D {
 				break
 			}
@@ -794,6 +802,7 @@ func (r *Runner) Exec(op *Op) (res Result) {
 	case "coldest":
 		for e := range c.Coldest() {
 			res.Entries = append(res.Entries, *view(e))
+			r.midIter(op, &res)
 			if op.D > 0 && int64(len(res.Entries)) >= op.D {
 				break
 			}
@@ -822,6 +831,14 @@ func (r *Runner) Exec(op *Op) (res Result) {
 
 // awaitRefresh receives a manual refresh result. With the queued executor the reload sits in the
 // queue, so the queue is run first (the result channel has capacity 1).
+// midIter is the body of the caller's loop over an iterator: after the first element it may move
+// the clock (Op.D2), so that later elements are judged at a later time than the first one.
+func (r *Runner) midIter(op *Op, res *Result) {
+	if op.D2 > 0 && len(res.Entries) == 1 {
+		r.Advance(op.D2)
+	}
+}
+
 func (r *Runner) awaitRefresh(recv func()) {
 	if r.Cfg.Executor == "queued" && r.onQueue == nil {
 		r.RunQueued(-1, nil)
